@@ -317,6 +317,101 @@ func checkLaneLoopExits(c *core.Ctx, pkgs []string) {
 					c.ReportAt("R06.exit", fn, bad.Pos(), "lane-loop-left-early:"+core.FuncName(fn), core.FuncName(fn)+" leaves its lane loop from inside the body (a break or return that depends on the current lane's data): every higher active lane is skipped and keeps its old destination register, so its result depends on a lower lane's input and a permutation of the lanes does not permute the results")
 				}
 			}
+			checkLaneClosureExit(c, st, fn)
+		}
+	}
+}
+
+// checkLaneClosureExit: the lane loop written as a walker with a callback. A function literal
+// whose int parameter is the lane argument of an operand access and whose bool result is tested
+// by the function it is handed to (the walk goes on or stops) is a lane-loop body; its result
+// is the loop's exit. It must be the same constant on every path (always go on; or, for an
+// instruction that only wants the first active lane, always stop): a result that differs
+// between paths is a data-dependent break.
+func checkLaneClosureExit(c *core.Ctx, st *core.RuleStat, fn *ssa.Function) {
+	for _, lit := range fn.AnonFuncs {
+		checkLaneClosureExit(c, st, lit)
+		sig := lit.Signature
+		if sig.Params().Len() != 1 || sig.Results().Len() != 1 || len(lit.Params) != 1 {
+			continue
+		}
+		if bt, ok := sig.Results().At(0).Type().Underlying().(*types.Basic); !ok || bt.Kind() != types.Bool {
+			continue
+		}
+		lane := lit.Params[0]
+		usesLane := false
+		for _, b := range lit.Blocks {
+			for _, in := range b.Instrs {
+				name, cc := stateMethod(in)
+				switch name {
+				case "ReadOperand", "WriteOperand", "ReadOperandBytes", "WriteOperandBytes":
+					if core.StripConv(cc.Args[1]) == ssa.Value(lane) {
+						usesLane = true
+					}
+				}
+			}
+		}
+		if !usesLane {
+			continue
+		}
+		// the function the literal is handed to tests what it returns
+		tested := false
+		for _, b := range fn.Blocks {
+			for _, in := range b.Instrs {
+				cc := core.CallOf(in)
+				if cc == nil || cc.StaticCallee() == nil {
+					continue
+				}
+				for i, a := range cc.Args {
+					mc, ok := a.(*ssa.MakeClosure)
+					if !ok || mc.Fn != ssa.Value(lit) || i >= len(cc.StaticCallee().Params) {
+						continue
+					}
+					par := cc.StaticCallee().Params[i]
+					for _, r := range *par.Referrers() {
+						call, ok := r.(*ssa.Call)
+						if !ok || call.Call.Value != ssa.Value(par) || call.Referrers() == nil {
+							continue
+						}
+						for _, u := range *call.Referrers() {
+							switch x := u.(type) {
+							case *ssa.If:
+								tested = true
+							case *ssa.UnOp:
+								if x.Op == token.NOT {
+									tested = true
+								}
+							}
+						}
+					}
+				}
+			}
+		}
+		if !tested {
+			continue
+		}
+		st.Instances++
+		c.MarkAnalysed(lit)
+		vals := map[string]ssa.Instruction{}
+		for _, b := range lit.Blocks {
+			if r, ok := b.Instrs[len(b.Instrs)-1].(*ssa.Return); ok && len(r.Results) == 1 {
+				k := "varying"
+				if cb, isC := core.ConstBool(r.Results[0]); isC {
+					k = fmt.Sprint(cb)
+				}
+				vals[k] = r
+			}
+		}
+		ok := len(vals) == 1 && vals["varying"] == nil
+		st.Ob(ok)
+		if !ok {
+			var at ssa.Instruction
+			for _, r := range vals {
+				if at == nil || r.Pos() > at.Pos() {
+					at = r
+				}
+			}
+			c.ReportAt("R06.exit", fn, at.Pos(), "lane-loop-left-early:"+core.FuncName(fn), core.FuncName(fn)+" hands its per-lane body to a lane walker as a function whose result says whether the walk goes on, and that result is not the same on every path: on some input of the current lane the walk stops, every higher active lane is skipped and keeps its old destination register, so its result depends on a lower lane's input")
 		}
 	}
 }
